@@ -45,25 +45,30 @@ ASSUMPTIONS = [
     "line's text carries its line break is open: both accepted provided text == source[start:end]",
     '"hang" is restated as a logical step budget through the public heart= protocol (one poll per rule invocation): '
     'for the acyclic random grammars the budget is twice a static bound on rule invocations WITHOUT memoization '
-    '(every loop advances >= 1 character per iteration); cases whose bound exceeds 150000 polls are run with that cap and a '
+    '(every loop advances >= 1 character per iteration), and, through a counting TextLines input (a subclass whose cursor '
+    'counts the public Cursor-protocol calls), 20x a static bound on expression evaluations, which also sees loops that '
+    'invoke no rule; cases whose bound exceeds 150000 polls / 600000 cursor operations are run with that cap and a '
     'died heart there is counted inconclusive, never a violation. For compiling grammar text (a recursive grammar) the '
     'budget is 100*(len+1)+8000 polls (decisive up to 519 chars; longer texts run with a 60000 cap, counted, not judged); '
     'a run over it is re-run with perlinememos=10**6: at most 1/8 of the budget then => mechanism hang:memo-starved; still over '
-    '1500*(len+1)+5000 => hang:step-budget; in between => counted inconclusive. Wall clock is only the shard watchdog',
+    '1500*(len+1)+5000 => hang:step-budget; in between => counted inconclusive. Time is only a watchdog (20 s of CPU per call, 8x the slowest ordinary call, '
+    'the shard wall clock): a fired watchdog makes the run inconclusive (floor shards_without_unexplained_watchdog) unless a '
+    'growth experiment explains it: the same grammar text cut one character shorter at a time shows CPU time growing >= 1.35x '
+    'per character over >= 4 consecutive steps (ratios, not absolute times) => hang:superlinear@<innermost tatsu function>',
     'recursion limit 6000 (vt.shard); bracket nesting of the generated grammar texts stays below 30, so a RecursionError '
     'is unbounded recursion, not deep input; survivors of mutation may be recursive grammars: RecursionError / died heart in '
     'their follow-up parses belong to C03/C16 and are counted, not judged',
     'a start rule name that does not exist, non-text inputs and invalid settings are API misuse, not "text": not generated',
-    'semantic wrongness of a result (e.g. @bool accepting any text) is not in this statement: counted as evidence only',
+    'semantic wrongness of a result (e.g. @bool accepting any text) is not in this statement: not judged here (reported to C01)',
 ]
 CAP = 150_000
-CAP_OPS = 2_000_000
-WATCHDOG_S = 60
+CAP_OPS = 600_000
+WATCHDOG_S = 20
 CAP_COMPILE = 60_000
 
-N_IN = {'quick': 1920, 'thorough': 60000}        # input-side grammars (x ~8 texts x 3 variants)
+N_IN = {'quick': 1920, 'thorough': 40320}        # input-side grammars (x ~8 texts x 3 variants)
 TEXTS_PER = {'quick': 8, 'thorough': 10}
-N_GR = {'quick': 3040, 'thorough': 96000}        # grammar texts
+N_GR = {'quick': 3040, 'thorough': 64320}        # grammar texts
 SHARDS = {'quick': 16, 'thorough': 96}
 SHARD_TIMEOUT = {'quick': 1800, 'thorough': 7200}
 PEAK_COUNTERS = ('max_polls_input', 'max_polls_compile', 'max_poll_ratio_compile_x100', 'max_cursor_ops',
@@ -81,13 +86,14 @@ _QUICK_FLOORS = {
     'in_budget_decisive': 19000, 'in_preflight_counting': 7000, 'in_ops_decisive': 6500,
     'gr_texts': 3000, 'gr_rejected_failure_judged': 1000, 'gr_compiled': 380, 'gr_templates': 160,
     'gr_shipped': 240, 'gr_mut:char': 750, 'gr_mut:token': 750, 'gr_followup_parses': 750,
-    'gr_budget_decisive': 1400, 'gr_nesting_probe': 2,
+    'gr_budget_decisive': 1400, 'gr_nesting_probe': 2, 'shards_without_unexplained_watchdog': 16,
 }
+_FIXED_THOROUGH = {'gr_texts': 64000, 'gr_nesting_probe': 12, 'shards_without_unexplained_watchdog': 96,
+                   'gr_unterminated_constant_probe': 3}
 FLOORS = {
     'quick': dict(_QUICK_FLOORS),
-    # thorough runs ~31x the quick case counts
-    'thorough': {k: (v * 28 if k not in ('gr_texts', 'gr_nesting_probe') else {'gr_texts': 94000, 'gr_nesting_probe': 12}[k])
-                 for k, v in _QUICK_FLOORS.items()},
+    # thorough runs 21x the quick case counts
+    'thorough': {**{k: v * 19 for k, v in _QUICK_FLOORS.items()}, **_FIXED_THOROUGH},
 }
 
 
@@ -100,8 +106,9 @@ def plan(tier, seed):
 def run_shard(desc, acc):
     run_inputs(desc, acc)
     run_grammars(desc, acc)
-    if acc.counters.get('watchdog_fired') and not acc.violation_count:
-        raise RuntimeError(f"CPU-time watchdog fired {acc.counters['watchdog_fired']}x: {acc.notes[:2]}")
+    # a CPU-time watchdog event that no logical experiment could explain makes the run inconclusive (floor)
+    if not acc.counters.get('watchdog_fired'):
+        acc.count('shards_without_unexplained_watchdog')
 
 
 # ======================================================================================= inputs
@@ -301,7 +308,7 @@ class InCase:
         want = 20 * b + 2000
         return (want, True) if want <= CAP_OPS else (CAP_OPS, False)
 
-    def execute(self, text, variant):
+    def execute(self, text, variant, watchdog_s=None):
         """-> (tag, payload, stats)   tag: ok | exc"""
         budget, decisive = self.budget(len(text))
         heart = StepHeart(budget)
@@ -317,7 +324,10 @@ class InCase:
                 st['ops_decisive'] = od
             else:
                 inp = self.make_input(text, variant['impl'])
-            with O.watchdog(WATCHDOG_S):
+            if watchdog_s is None:
+                # a case whose logical budget is capped is not judged anyway: do not spend a minute of CPU on it
+                watchdog_s = 10 if st['ops_decisive'] is False else WATCHDOG_S
+            with O.watchdog(watchdog_s):
                 if variant['parser'] == 'generated':
                     res = self.parser_cls().parse(inp, **kw)
                 elif variant['parser'] == 'api':
@@ -335,10 +345,10 @@ class InCase:
 VARIANTS = [{'impl': impl, 'parseinfo': pi} for impl in ('str', 'TextLines', 'Buffer') for pi in (False, True)]
 
 
-def observe_input(case, text, variant):
+def observe_input(case, text, variant, watchdog_s=None):
     """one execution -> (outcome class, [(sig, what)], stats) ; no accounting"""
     from tatsu.exceptions import FailedParse, HeartDied
-    tag, res, xs = case.execute(text, variant)
+    tag, res, xs = case.execute(text, variant, watchdog_s)
     heart = xs['heart']
     st = {'polls': heart.calls, 'decisive': xs['decisive'], 'pos_kind': None, 'renders': 0, 'judged': False,
           'ops': xs['clock'][0] if xs['clock'] else None, 'ops_decisive': xs['ops_decisive']}
@@ -347,6 +357,8 @@ def observe_input(case, text, variant):
     e = res
     cls = O.class_name(e)
     if isinstance(e, O.Watchdog):
+        if xs['ops_decisive'] is False:
+            return 'StepsExceeded(cap)', [], st      # capped logical budget: counted, not judged
         return 'Watchdog', [], st
     if isinstance(e, O.StepsExceeded):
         if not xs['ops_decisive']:
@@ -448,14 +460,25 @@ def short(t, n=120):
     return t if len(t) <= n else t[:n // 2] + f'...<{len(t)} chars>...' + t[-n // 4:]
 
 
+class _GiveUp(Exception):
+    pass
+
+
 def shrink_input(case, text, variant, sig):
+    slow = [0]
+
     def pred(g2, s2, t2):
         if s2 != 'start' or not any(r.name == 'start' for r in g2.rules):
             return False
         c = InCase(g2, case.route, want_generated=variant['parser'] == 'generated')
         if c.build_exc is not None or (variant['parser'] == 'generated' and c.parser_cls is None):
             return False
-        _cls, probs, _st = observe_input(c, t2, variant)
+        # candidates may fall into a loop the counting input is not watching: short CPU watchdog, then give up
+        cls, probs, _st = observe_input(c, t2, variant, watchdog_s=1.0)
+        if cls == 'Watchdog':
+            slow[0] += 1
+            if slow[0] >= 3:
+                raise _GiveUp
         return any(p[0] == sig for p in probs)
 
     try:
@@ -621,6 +644,11 @@ def templates():
     A(('include-pragma', '#include :: "nofile.ebnf"\nstart = \'a\' ;\n'))
     A(('escapes', "start = '\\x' '\\u12' '\\N{nope}' ;\n"))
     A(('escape-trailing-backslash', "start = 'a\\' ;\n"))
+    A(('escape-unknown-name', "start = '\\N{nope}' ;\n"))
+    A(('escape-bad-hex4', 'start = "\\uzzzz" ;\n'))
+    A(('escape-bad-hex2', "start = 'a\\xzzb' ;\n"))
+    A(('escape-beyond-unicode', "start = '\\U00110000' ;\n"))
+    A(('escape-in-keyword', "@@keyword :: '\\N{nope}'\nstart = 'a' ;\n"))
     A(('regex-trailing-backslash', "start = /a\\/ ;\n"))
     A(('multiline-string', "start = '''a\nb''' ;\n"))
     A(('keyword-as-rule', "@@keyword :: start\nstart = 'a' ;\n"))
@@ -664,18 +692,18 @@ def decorate(rng, g):
     return L.Grammar(rules, d, kws)
 
 
-def gram_text(rng, i, tier):
+def gram_text(rng, i, tier, shard=0):
     """-> (text, origin label, mutation ops)"""
     r = i % 20
     ops = []
     if r < 2:
         tpls = gram_templates()
-        name, text = tpls[(i // 20 * 2 + r) % len(tpls)] if rng.random() < 0.7 else rng.choice(tpls)
+        name, text = tpls[(shard * 19 + i // 20 * 2 + r) % len(tpls)] if rng.random() < 0.7 else rng.choice(tpls)
         origin = 'template:' + name.split(':')[0]
         nmut = rng.choice([0, 0, 0, 1])
     elif r < 5 and shipped():
         files = shipped()
-        name, src = files[(i // 20 + r) % len(files)]
+        name, src = files[(shard + i // 20 + r) % len(files)]
         whole = len(src) < 1000 or (i % (400 if tier == 'quick' else 1200) == 2)
         if whole:
             text = src
@@ -736,6 +764,14 @@ def observe_compile(text, settings):
     e = res
     cls = O.class_name(e)
     if isinstance(e, O.Watchdog):
+        fn = O.innermost_tatsu_function(e)
+        series = superlinear_series(text, settings)
+        if series is not None:
+            return 'Watchdog(confirmed)', [(f'hang:superlinear@{fn}/{O.innermost_boot_rule(e)}',
+                                            f'tatsu.compile of a grammar text of {len(text)} chars did not return within '
+                                            f'{WATCHDOG_S}s of CPU (only {heart.calls} rule invocations; inside {fn}); CPU seconds '
+                                            f'for the same text cut 1 character shorter each time, shortest first: {series} '
+                                            f'(grows >= 1.35x per character: exponential)')], st, None
         return 'Watchdog', [], st, None
     if isinstance(e, FailedParse):
         seen = getattr(getattr(e, 'cursor', None), 'textstr', text)
@@ -777,6 +813,49 @@ def observe_compile(text, settings):
     return cls, [(O.escape_sig(e), f'tatsu.compile raised {cls}: {str(e)[:120]} (in {O.innermost_tatsu_function(e)})')], st, None
 
 
+def superlinear_series(text, settings, per_try=1.5, max_cut=48):
+    """growth experiment after a CPU watchdog: CPU time of compiling the text cut 1..max_cut characters shorter.
+    -> the rounded series (shortest first) when the time above the ordinary compile cost grows >= 1.35x in each of >= 4
+    consecutive steps and every longer cut runs out of `per_try`; None when that cannot be established (the
+    watchdog event then stays inconclusive)"""
+    import time
+    import tatsu
+    times = []          # index j-1 <-> text[:-j]
+    for j in range(1, min(max_cut, len(text)) + 1):
+        t = text[:len(text) - j]
+        t0 = time.process_time()
+        try:
+            with O.watchdog(per_try):
+                tatsu.compile(t, **settings)
+            dt = time.process_time() - t0
+        except O.Watchdog:
+            dt = None
+        except BaseException as e:  # noqa: BLE001
+            if isinstance(e, (KeyboardInterrupt, SystemExit)):
+                raise
+            dt = time.process_time() - t0
+        times.append(dt)
+    # from the shortest text (last measured) to the longest
+    seq = list(reversed(times))
+    measured = [x for x in seq if x is not None]
+    k = len(measured)
+    if seq[:k] != measured or k < 5:        # all timeouts must be at the long end
+        return None
+    base = min(measured)                    # the cost of an ordinary compile of this text
+    run = 0
+    best = 0
+    for a, b in zip(measured, measured[1:]):
+        if a - base >= 0.03:
+            if b - base >= 1.35 * (a - base):
+                run += 1
+                best = max(best, run)
+            else:
+                run = 0
+    if best < 4:
+        return None
+    return [round(x, 2) for x in measured] + ['>%gs' % per_try] * (len(seq) - k)
+
+
 FOLLOWUP_TEXTS = ['', 'a', 'a b', '+', 'a\r\nb', '\x00', 'true 1 x', '1.+5', 'a' * 50, '\x85a', 'a,a', 'b b c']
 
 
@@ -790,8 +869,10 @@ def followup(acc, model, gtext, rng, origin):
         acc.evaluations += 1
         acc.count('gr_followup_parses')
         try:
+            # the mutated grammar may be recursive: no static bound, so a fixed logical budget (not judged when exceeded)
+            inp = O.counting_text_class()(text, 8000, config=model.config)
             with O.watchdog(WATCHDOG_S):
-                model.parse(text, heart=heart, parseinfo=pi)
+                model.parse(inp, heart=heart, parseinfo=pi)
             acc.count('gr_followup:ok')
             continue
         except BaseException as e:  # noqa: BLE001
@@ -807,8 +888,8 @@ def followup(acc, model, gtext, rng, origin):
             acc.count('gr_followup_failures_judged')
         elif isinstance(exc, (HeartDied, RecursionError)):
             acc.count('gr_followup_recursion_or_budget(C03/C16 domain)')
-        elif isinstance(exc, O.Watchdog):
-            acc.count('gr_followup_watchdog(possibly recursive grammar: not judged)')
+        elif isinstance(exc, (O.Watchdog, O.StepsExceeded)):
+            acc.count('gr_followup_budget(possibly recursive grammar: not judged)')
         elif O.is_tatsu_exception(exc):
             problems = [(f'exc:tatsu-not-a-parse-failure:{cls}', f'input parse with a compiled grammar raised {cls}: '
                                                                   f'{str(exc)[:120]}')]
@@ -850,6 +931,8 @@ def check_grammar_text(acc, text, origin, ops, rng, do_followup=True):
     elif cls == 'Watchdog':
         acc.count('watchdog_fired')
         acc.note(f'CPU-time watchdog ({WATCHDOG_S}s) fired in tatsu.compile of {short(text, 200)!r}')
+    elif cls == 'Watchdog(confirmed)':
+        acc.count('gr_watchdog_confirmed_superlinear')
     else:
         acc.count('gr_rejected')
     if st['cursor_text_differs']:
@@ -860,7 +943,7 @@ def check_grammar_text(acc, text, origin, ops, rng, do_followup=True):
         if st['pos_kind']:
             acc.count('gr_fail_pos:' + st['pos_kind'])
         acc.nontriv('gr', text)
-    elif cls not in ('ok', 'Watchdog') and not cls.startswith('HeartDied'):
+    elif cls not in ('ok', 'Watchdog', 'Watchdog(confirmed)') and not cls.startswith('HeartDied'):
         acc.count('render_calls', st['renders'])
     for sig, what in problems:
         t2 = text
@@ -907,7 +990,7 @@ def run_grammars(desc, acc):
     sampled = 0
     for i in range(desc['n_gr']):
         rng = random.Random(h64('C08', 'gr', desc['seed'], desc['shard'], i))
-        text, label, ops = gram_text(rng, i, desc['tier'])
+        text, label, ops = gram_text(rng, i, desc['tier'], desc['shard'])
         origin = {'mode': 'grammars', 'shard': desc['shard'], 'i': i, 'label': label}
         check_grammar_text(acc, text, origin, ops, rng)
         if sampled < 2 and ops and label == 'printed' and len(text) < 300:
@@ -919,6 +1002,12 @@ def run_grammars(desc, acc):
         acc.count('gr_nesting_probe')
         check_grammar_text(acc, text, {'mode': 'grammars', 'shard': desc['shard'], 'i': -1,
                                        'label': 'template:nesting-one-line'}, [], random.Random(0), do_followup=False)
+    if desc['tier'] == 'thorough' and desc['shard'] % 32 == 3:
+        # an unterminated ```constant followed by blank lines (costs ~1 minute of CPU: thorough only)
+        acc.count('gr_unterminated_constant_probe')
+        check_grammar_text(acc, 'start = ```x ;' + '\n' * 45, {'mode': 'grammars', 'shard': desc['shard'], 'i': -2,
+                                                               'label': 'template:unterminated-multiline-constant'}, [],
+                           random.Random(0), do_followup=False)
 
 
 # ======================================================================================= replay
